@@ -19,7 +19,7 @@ Theorem C02_step_over_once :
   (forall a, In a tr -> code a <> Some INT3) -> (forall a, In a tr -> code a <> None) ->
   forall bps m i b, no_stutter tr ->
   WF code bps m -> (S i < length tr)%nat -> In b bps -> b_addr b = pc_at tr i ->
-  exists m', step_over_core code tr (proc_at tr m i) b = Ok (proc_at tr m' (S i), b) /\ WF code bps m' /\
+  exists m', step_over_core code tr (proc_at tr m i) b = Ok (proc_at tr m' (S i), b, false) /\ WF code bps m' /\
              (forall x, m' x = m x).
 Proof. exact (fun code tr => step_over_core_once code tr 0 (fun _ => true)). Qed.
 
@@ -37,9 +37,22 @@ Theorem C02_error_paths_refuted : exists tr ops,
   only_stops (wspec tr (ops ++ [Continue; Continue; Continue])) = [StopBp 20 1; StopBp 20 1; StopExit 7].
 Proof. exact BpMachineProofs.C02_error_paths_refuted. Qed.
 
-Theorem C02_exit_step_panics : exists tr ops,
-  snd (wrun tr ops) = [OAdded 1; OStop (StopBp 40 1); ODone; OPanic SITE_TRACEE_GONE].
-Proof. exact BpMachineProofs.C02_exit_step_panics. Qed.
+(* stepping over / continuing from the instruction that ends the process reports the exit with the
+   program's code, registry and process as after a normal exit (positive since /repo c0ceee6) *)
+Theorem C02_exit_step_reports_exit :
+  forall code tr rbrk off has_place exit_code,
+  (forall a, In a tr -> code a <> Some INT3) -> (forall a, In a tr -> code a <> None) ->
+  no_stutter tr -> forall s i m, Prompt code tr s i m -> S i = length tr ->
+  exists s' r, continue_execution code tr rbrk off has_place exit_code s = Ok (s', r) /\
+               exit_seen exit_code r /\ ExitedOK tr s'.
+Proof. exact C02_continue_from_last. Qed.
+
+Theorem C02_stepi_last_reports_exit :
+  forall code tr off exit_code,
+  (forall a, In a tr -> code a <> Some INT3) -> (forall a, In a tr -> code a <> None) ->
+  forall s i m, Prompt code tr s i m -> S i = length tr ->
+  exists s', stepi code tr off exit_code s = (s', OExit exit_code) /\ ExitedOK tr s'.
+Proof. exact (fun code tr off => C02_stepi_last code tr 0 off (fun _ => true)). Qed.
 
 Example C02_nonvacuous : trace_okb nop tr_w = true /\ no_stutterb tr_w = true.
 Proof. exact hypotheses_nonvacuous. Qed.
